@@ -5,3 +5,5 @@ import WhatIs.Props.C16
 import WhatIs.Props.C17
 import WhatIs.Props.C20
 import WhatIs.Props.C07
+import WhatIs.Props.C13
+import WhatIs.Props.C10
